@@ -993,7 +993,11 @@ def _engine_big_validate(self):
         values = sym_obs = None
         if m is not None:
             values = self.model_values(m)
-            sym_obs = [(l, _norm(self.eval(v, m))) for l, v in self.obs]
+            saved, self.model = self.model, m      # nested proxies are evaluated under the large model too
+            try:
+                sym_obs = [(l, _norm(self.eval(v, m))) for l, v in self.obs]
+            finally:
+                self.model = saved
         self.solver.pop()
         if m is not None:
             self.stats["big_models"] = self.stats.get("big_models", 0) + 1
